@@ -1,2 +1,10 @@
 import Proofs.C19
-#print axioms C19.placeholder
+#print axioms C19.merge_is_conjunction_generic
+#print axioms C19.merge_is_conjunction_partial
+#print axioms C19.merge_empty_value_counterexample
+#print axioms C19.merge_keeps_key
+#print axioms C19.splitwords_quote
+#print axioms C19.splitwords_addToQuery
+#print axioms C19.splitwords_spec
+#print axioms C19.query_result_spec
+#print axioms C19.query_unsat_spec
